@@ -1462,7 +1462,7 @@ theorem splitLines_eq (x : Bytes) : splitLines x = splitAux maxLine x [] 0 := rf
 theorem wf_rlines (σ : IniSpec.Style) (d : IniSpec.Doc) (h : IniSpec.WF σ d = true) :
     ∀ r ∈ docRLines d, r.wf = true := by
   simp only [IniSpec.WF, Bool.and_eq_true, List.all_eq_true] at h
-  obtain ⟨⟨⟨⟨hpre, hsecs⟩, _⟩, _⟩, _⟩ := h
+  obtain ⟨⟨⟨hpre, hsecs⟩, _⟩, _⟩ := h
   intro r hr
   simp only [docRLines, List.mem_append, List.mem_map, List.mem_flatMap] at hr
   rcases hr with ⟨l, hl, rfl⟩ | ⟨s, hs, hr⟩
@@ -1497,7 +1497,7 @@ theorem foldl_render (σ : IniSpec.Style) (d : IniSpec.Doc) (hwf : IniSpec.WF σ
     (splitLines (IniSpec.render σ d)).foldl (step true) st = (docRLines d).foldl rlineEffect st := by
   have hrw := wf_rlines σ d hwf
   simp only [IniSpec.WF, Bool.and_eq_true] at hwf
-  obtain ⟨⟨⟨_, _⟩, heols⟩, hlines⟩ := hwf
+  obtain ⟨⟨_, heols⟩, hlines⟩ := hwf
   rw [doc_eols_eq] at heols
   unfold IniSpec.linesOk at hlines
   unfold IniSpec.render
@@ -1656,86 +1656,93 @@ theorem findSection_of_inj (f : IniFile) (hinj : ∀ x ∈ f, ∀ y ∈ f, x.nam
 theorem parameterString_none (f : IniFile) (n k : Bytes) : parameterString f n k none = findParameter f n k := by
   unfold parameterString; cases findParameter f n k <;> rfl
 
-theorem fileView_eq (f : IniFile) (hinj : ∀ x ∈ f, ∀ y ∈ f, x.name = y.name → x = y) :
-    fileView f = f.reverse.map sectionView := by
+theorem findSection_some_of_mem (f : IniFile) (x : Section) (hx : x ∈ f) :
+    ∃ y, findSection f x.name = some y ∧ y.name = x.name := by
+  unfold findSection
+  have h : (f.find? (·.name == x.name)).isSome = true := by
+    rw [List.find?_isSome]; exact ⟨x, hx, by simp⟩
+  obtain ⟨y, hy⟩ := Option.isSome_iff_exists.mp h
+  exact ⟨y, hy, by have := List.find?_some hy; simpa using this⟩
+
+/-- what the API shows under the name of `x`: the keys and values of the section a look-up of that name finds -/
+def viewAs (f : IniFile) (x : Section) : Bytes × List (Bytes × Bytes) :=
+  (x.name, (sectionView ((findSection f x.name).getD x)).2)
+
+theorem fileView_gen (f : IniFile) : fileView f = f.reverse.map (viewAs f) := by
   unfold fileView
   rw [sections_eq, ← List.map_reverse, List.map_map]
   apply List.map_congr_left
   intro x hx
   have hx' : x ∈ f := by simpa using hx
-  have hf := findSection_of_inj f hinj x hx'
-  simp only [Function.comp, sectionView, keys_of_find f x.name x hf, parameterString_none]
+  obtain ⟨y, hf, hyn⟩ := findSection_some_of_mem f x hx'
+  simp only [Function.comp, viewAs, sectionView, keys_of_find f x.name y hf, parameterString_none, hf, Option.getD_some]
   congr 1
   apply List.map_congr_left
   intro k _
   simp [findParameter, hf]
 
+theorem fileView_eq (f : IniFile) (hinj : ∀ x ∈ f, ∀ y ∈ f, x.name = y.name → x = y) :
+    fileView f = f.reverse.map sectionView := by
+  rw [fileView_gen]
+  apply List.map_congr_left
+  intro x hx
+  have hx' : x ∈ f := by simpa using hx
+  simp [viewAs, findSection_of_inj f hinj x hx', sectionView]
+
 theorem sectionView_secOf (s : IniSpec.Sec) :
     sectionView (secOf s) = (s.header.name, IniSpec.assoc (IniSpec.entriesOf s.body)) := by
   simp [sectionView, secOf, IniSpec.assoc, IniSpec.lastValue, List.map_reverse]
 
-theorem view_filter (l : List IniSpec.Sec) :
-    ((l.map secOf).filter hasKeys).map sectionView = IniSpec.meaningOf l := by
-  induction l with
-  | nil => rfl
-  | cons s rest ih =>
-    simp only [List.map_cons, List.filter_cons, IniSpec.meaningOf, List.filterMap_cons]
-    have hk : hasKeys (secOf s) = !(IniSpec.entriesOf s.body).isEmpty := by simp [hasKeys, secOf]
-    rw [hk]
-    by_cases he : (IniSpec.entriesOf s.body).isEmpty = true
-    · simp only [he, Bool.not_true, Bool.false_eq_true, if_false, if_true]
-      exact ih
-    · simp only [he, Bool.not_false, if_true, Bool.false_eq_true, if_false, List.map_cons, sectionView_secOf]
-      have : IniSpec.meaningOf rest = List.filterMap (fun s =>
-          if (IniSpec.entriesOf s.body).isEmpty = true then none
-          else some (s.header.name, IniSpec.assoc (IniSpec.entriesOf s.body))) rest := rfl
-      rw [← this, ← ih]
+theorem hasKeys_secOf : (hasKeys ∘ secOf) = IniSpec.Sec.assigns := by
+  funext s; simp [hasKeys, secOf, IniSpec.Sec.assigns]
 
-theorem distinct_inj {α} (g : α → Bytes) (l : List α) (h : IniSpec.distinct (l.map g) = true) :
-    ∀ a ∈ l, ∀ b ∈ l, g a = g b → a = b := by
-  induction l with
-  | nil => intro a ha; simp at ha
-  | cons x rest ih =>
-    simp only [List.map_cons, IniSpec.distinct, Bool.and_eq_true, Bool.not_eq_true', List.contains_eq_mem,
-      decide_eq_false_iff_not, List.mem_map, not_exists, not_and] at h
-    intro a ha b hb hab
-    simp only [List.mem_cons] at ha hb
-    rcases ha with ha | ha <;> rcases hb with hb | hb
-    · rw [ha, hb]
-    · subst ha; exact absurd hab.symm (h.1 b hb)
-    · subst hb; exact absurd hab (h.1 a ha)
-    · exact ih h.2 a ha b hb hab
+theorem filter_map_secOf (l : List IniSpec.Sec) :
+    (l.map secOf).filter hasKeys = (l.filter IniSpec.Sec.assigns).map secOf := by
+  rw [List.filter_map, hasKeys_secOf]
 
-/-- the API view of the parsed rendering: the last section first, then the others in file order -/
-theorem fileView_parse_render (σ : IniSpec.Style) (d : IniSpec.Doc) (hwf : IniSpec.WF σ d = true)
-    (init : List IniSpec.Sec) (last : IniSpec.Sec) (hs : d.secs = init ++ [last]) :
-    fileView (parse (IniSpec.render σ d)) = IniSpec.meaningOf [last] ++ IniSpec.meaningOf init := by
-  rw [parse_render_sections σ d hwf init last hs]
-  have hd : IniSpec.distinct (d.secs.map (·.header.name)) = true := by
-    simp only [IniSpec.WF, Bool.and_eq_true] at hwf
-    exact hwf.1.1.2
-  have hinjS := distinct_inj (fun s : IniSpec.Sec => s.header.name) d.secs hd
-  rw [fileView_eq]
-  · simp only [List.reverse_append, List.reverse_reverse, List.map_append]
-    rw [view_filter init]
-    have : ([secOf last].filter hasKeys).reverse = ([last].map secOf).filter hasKeys := by
-      simp only [List.map_cons, List.map_nil, List.filter_cons, List.filter_nil]
-      cases hasKeys (secOf last) <;> rfl
-    rw [this, view_filter [last]]
-  · -- names are injective on the parsed sections
-    have hmem : ∀ x ∈ ((init.map secOf).filter hasKeys).reverse ++ [secOf last].filter hasKeys,
-        ∃ s ∈ d.secs, x = secOf s := by
-      intro x hx
-      simp only [List.mem_append, List.mem_reverse, List.mem_filter, List.mem_map, List.mem_cons,
-        List.not_mem_nil, or_false] at hx
-      rcases hx with ⟨⟨s, hs', rfl⟩, _⟩ | ⟨rfl, _⟩
-      · exact ⟨s, by rw [hs]; simp [hs'], rfl⟩
-      · exact ⟨last, by rw [hs]; simp, rfl⟩
-    intro x hx y hy hxy
-    obtain ⟨s1, hs1, rfl⟩ := hmem x hx
-    obtain ⟨s2, hs2, rfl⟩ := hmem y hy
-    have : s1 = s2 := hinjS s1 hs1 s2 hs2 (by simpa [secOf] using hxy)
-    rw [this]
+theorem lookupOrder_snoc (init : List IniSpec.Sec) (last : IniSpec.Sec) :
+    IniSpec.lookupOrder (init ++ [last]) = init.reverse ++ [last] := by
+  simp [IniSpec.lookupOrder]
+
+/-- the parsed file of a well-formed document: its non-empty sections, in look-up order -/
+theorem parse_render_all (σ : IniSpec.Style) (d : IniSpec.Doc) (hwf : IniSpec.WF σ d = true) :
+    parse (IniSpec.render σ d) = ((IniSpec.lookupOrder d.secs).filter IniSpec.Sec.assigns).map secOf := by
+  cases hr : d.secs.reverse with
+  | nil =>
+    have hs : d.secs = [] := by simpa using hr
+    rw [parse_render_nosections σ d hwf hs, hs]; rfl
+  | cons last initRev =>
+    have hs : d.secs = initRev.reverse ++ [last] := by
+      have := congrArg List.reverse hr
+      simpa using this
+    rw [parse_render_sections σ d hwf initRev.reverse last hs, hs, lookupOrder_snoc, filter_map_secOf,
+      List.filter_append, List.map_append, List.reverse_reverse, ← List.map_reverse, ← List.filter_reverse,
+      List.reverse_reverse]
+    congr 1
+    have := filter_map_secOf [last]
+    simpa using this
+
+theorem findSection_map_secOf (L : List IniSpec.Sec) (n : Bytes) :
+    findSection (L.map secOf) n = (L.find? (·.header.name == n)).map secOf := by
+  unfold findSection
+  rw [List.find?_map]
+  rfl
+
+/-- the API view of the parsed rendering: the non-empty sections in listing order (the reverse of the look-up
+order: the final section first, then the others in file order), each with what a look-up of its name sees -/
+theorem fileView_parse_render (σ : IniSpec.Style) (d : IniSpec.Doc) (hwf : IniSpec.WF σ d = true) :
+    fileView (parse (IniSpec.render σ d)) = IniSpec.meaningIn d.secs (IniSpec.lookupOrder d.secs).reverse := by
+  rw [parse_render_all σ d hwf, fileView_gen, ← List.map_reverse, List.map_map]
+  unfold IniSpec.meaningIn
+  rw [List.filter_reverse]
+  apply List.map_congr_left
+  intro s _
+  simp only [Function.comp, viewAs, IniSpec.viewOf, IniSpec.seenSec, findSection_map_secOf]
+  have hname : (secOf s).name = s.header.name := rfl
+  rw [hname]
+  cases ((IniSpec.lookupOrder d.secs).filter IniSpec.Sec.assigns).find? (·.header.name == s.header.name) with
+  | none => simp [sectionView_secOf]
+  | some y => simp [sectionView_secOf]
 
 /-! ## getters -/
 
